@@ -5,6 +5,12 @@ import json, os, sys
 VERIF = os.path.dirname(os.path.dirname(os.path.abspath(__file__)))
 
 ENGINES = [
+    {"name": "fuzz", "path": "vf/fuzz/fuzz.cc", "serves_properties": ["C18"],
+     "kind_free_text": "coverage-guided libFuzzer targets for every decoder entry point and a structure-aware whole-database target, ASan+UBSan, NDEBUG and assertion builds"},
+    {"name": "corrupt", "path": "vf/engines/corrupt.cc", "serves_properties": ["C11"],
+     "kind_free_text": "single-fault enumeration over the bytes of generated closed databases (bit flips, 0x00/0xFF, truncation, sector zeroing), re-opened paranoid and read with checksum verification"},
+    {"name": "race", "path": "vf/engines/race.cc", "serves_properties": ["C10"],
+     "kind_free_text": "generated multi-threaded programs on real threads with seeded delay injection under ThreadSanitizer and AddressSanitizer"},
     {"name": "fault", "path": "vf/engines/fault.cc", "serves_properties": ["C12"],
      "kind_free_text": "fault enumeration: each generated history is re-executed once per intercepted system call (every call when few, sampled otherwise) with that call failing "
                        "(ENOSPC/EIO/EMFILE/ENOENT, one-shot, persistent or short write); marker-key oracle after close+reopen and after kill+reopen with the fault cleared"},
@@ -116,6 +122,22 @@ CHECKS = {
                 text="Generated histories with backup/copy/destroy/lock-probe/refused-open operations at arbitrary points; backups and copies are opened as independent databases and compared with the "
                      "model at the moment they were taken, again after later source writes, and written to without affecting the source; byte-level directory snapshots show that refused opens and "
                      "copies modify nothing and that destroy leaves foreign files alone; the lock is probed from the same process and from a forked child. Backups concurrent with writer threads are not yet explored."),
+    "C10": dict(engine="race", cat="exploration", ref="3/C10",
+                technique="generated concurrent workloads on real threads with delay injection; oracle = ThreadSanitizer / AddressSanitizer reports",
+                text="Generated programs of 3..5 (8) threads x 10..40 operations (writes, reads, held snapshots, per-thread iterators, flush, manual compaction, properties, approximate sizes, backup) "
+                     "run on real threads with seeded delays at lock and system-call sites, under ThreadSanitizer (primary) and AddressSanitizer. Any report is a violation; a report is replayed with other "
+                     "delay seeds and the reproducing case is kept, otherwise the report itself. Dynamic detection: only executed access pairs are judged."),
+    "C11": dict(engine="corrupt", cat="fault_enumeration", ref="3/C11",
+                technique="byte-level single-fault enumeration over generated databases; oracle = model answer or error status, scans judged as (entries, status)",
+                text="Generated small multi-level databases are closed; each chosen (file, offset, alteration) is applied, the database reopened with paranoid checks and read with checksum "
+                     "verification through fresh caches, judged and restored. Tables: a lookup returns the model's answer or an error, never a wrong value, never NOTFOUND for a live key; a scan "
+                     "with final status OK equals the model exactly. Log/MANIFEST/CURRENT: every present value was written for that key and batches are whole. Quick tier covers all structural "
+                     "table bytes plus samples; the thorough tier enumerates every byte of small files."),
+    "C18": dict(engine="fuzz", cat="exploration", ref="3/C18",
+                technique="coverage-guided fuzzing (libFuzzer) of every decoder entry point and of whole-database operations on structurally damaged directories, under ASan/UBSan",
+                text="Nine libFuzzer targets (block iterator, filter, Snappy with differential reference decode, version edit, write batch, log reader, table file incl. the dump tool, file names, "
+                     "whole database: open/get/scan/compact/write/repair/dump on a valid directory damaged at field level) run from seeded and empty corpora with the shipped NDEBUG semantics and "
+                     "with assertions on. A sanitizer report, abort, reachable assertion, semantic-oracle trap or an input that does not return standalone within 90 s is a violation."),
 }
 
 NOT_APPLICABLE = []
